@@ -64,6 +64,9 @@ structure Sem where
   truthy : V → Bool
   unop : UnOp → V → Option V
   binop : BinOp → V → V → Option V
+  /-- `x op= e` is a different runtime operation (`run_compound_assign_op!`: numbers only) from
+  `x op e` (`+` also joins strings and containers), so it has its own semantic function. -/
+  compoundop : BinOp → V → V → Option V
 
 variable (S : Sem)
 
@@ -128,7 +131,7 @@ def eval : Expr → Env S → Option (S.V × Env S)
     match ρ x with
     | some vx =>
       match eval e ρ with
-      | some (vr, ρ1) => (S.binop op vx vr).map (fun r => (r, ρ1.set x r))
+      | some (vr, ρ1) => (S.compoundop op vx vr).map (fun r => (r, ρ1.set x r))
       | none => none
     | none => none
   | .seq a b, ρ =>
@@ -177,7 +180,7 @@ def stepInstr : Instr → Regs S → Option (Regs S)
   | .copy d s, σ => some (σ.set d (σ s))
   | .unop op d s, σ => (S.unop op (σ s)).map (σ.set d)
   | .binop op d a b, σ => (S.binop op (σ a) (σ b)).map (σ.set d)
-  | .compound op l r, σ => (S.binop op (σ l) (σ r)).map (σ.set l)
+  | .compound op l r, σ => (S.compoundop op (σ l) (σ r)).map (σ.set l)
 
 /-- execution of structured code; `none` = runtime error -/
 def exec : Code → Regs S → Option (Regs S)
